@@ -103,8 +103,11 @@ func inJSONMarshal(x *Exec, s *State, a []Value, _ *ssa.Call) []Outcome {
 	if !ok || iv.T == nil {
 		unsupported("json.Marshal of nil/unknown value")
 	}
+	if iv.T.String() == "encoding/json.RawMessage" {
+		return x.jsonRaw(s, iv.V, smt.True, nil)
+	}
 	if !isString(iv.T) {
-		unsupported("json.Marshal of dynamic type %s (only string data is encoded by the engine)", iv.T)
+		unsupported("json.Marshal of dynamic type %s (only string and json.RawMessage data are encoded by the engine)", iv.T)
 	}
 	fn := x.W.jsonAppendString()
 	if fn == nil {
@@ -174,4 +177,118 @@ func inIndirectToStringer(x *Exec, s *State, a []Value, _ *ssa.Call) []Outcome {
 		iv = Iface{T: pt.Elem(), V: s.load(p)}
 	}
 	return one(iv)
+}
+
+// jsonRaw models what encoding/json does with a json.RawMessage value (marshalerEncoder):
+// MarshalJSON returns the bytes ("null" for a nil message) and the real
+// encoding/json.appendCompact(nil, b, escapeHTML), run from the standard library's SSA,
+// validates and compacts them. deliver (optional) post-processes the result bytes.
+func (x *Exec) jsonRaw(s *State, raw Value, escape *smt.Term, finish func(x *Exec, s *State, out Value, err Iface) Value) []Outcome {
+	pkg := x.W.Prog.ImportedPackage("encoding/json")
+	if pkg == nil || pkg.Func("appendCompact") == nil {
+		unsupported("encoding/json.appendCompact not found in the SSA program")
+	}
+	fn := pkg.Func("appendCompact")
+	sl, ok := raw.(Slice)
+	if !ok {
+		unsupported("json.RawMessage held as %T", raw)
+	}
+	return []Outcome{{Cond: smt.True, Val: nativeCall{&NativeDriver{Kind: "json.RawMessage", Data: fn, Resume: func(x *Exec, s *State, f *Frame) {
+		if !f.NatHasRet {
+			arg := Value(sl)
+			if sl.Obj == 0 {
+				arg = s.newByteSlice(StrOf("null"))
+			}
+			x.callValue(s, fn, []Value{Slice{}, arg, escape})
+			return
+		}
+		t := f.NatRet.(Tuple)
+		errI, _ := t[1].(Iface)
+		if errI.T != nil {
+			// encoding/json wraps the syntax error in a *MarshalerError
+			errI = Iface{T: x.W.ErrType, V: x.W.newExt("error", nil)}
+			if finish != nil {
+				x.popFrame(s, finish(x, s, Slice{}, errI))
+				return
+			}
+			x.popFrame(s, Tuple{Slice{}, errI})
+			return
+		}
+		if finish != nil {
+			x.popFrame(s, finish(x, s, t[0], Iface{}))
+			return
+		}
+		x.popFrame(s, Tuple{t[0], Iface{}})
+	}}}}}
+}
+
+// inJSONEncode models (*json.Encoder).Encode(v) for string and json.RawMessage data: the
+// bytes Marshal would produce under the encoder's escapeHTML setting, a newline, written to
+// the encoder's writer (a *bytes.Buffer).
+func inJSONEncode(x *Exec, s *State, a []Value, _ *ssa.Call) []Outcome {
+	ep := a[0].(Ptr)
+	enc := s.load(ep).(*StructVal) // {w io.Writer; err error; escapeHTML bool; ...}
+	if e, ok := enc.F[1].(Iface); ok && e.T != nil {
+		return one(e)
+	}
+	w, ok := enc.F[0].(Iface)
+	if !ok || w.T == nil || w.T.String() != "*bytes.Buffer" {
+		unsupported("json.Encoder writing to %v", w.T)
+	}
+	bp := w.V.(Ptr)
+	escape, ok := enc.F[2].(*smt.Term)
+	if !ok {
+		unsupported("json.Encoder with unexpected escapeHTML field")
+	}
+	iv, ok := a[1].(Iface)
+	if !ok || iv.T == nil {
+		unsupported("json.Encoder.Encode of nil/unknown value")
+	}
+	finish := func(x *Exec, s *State, out Value, err Iface) Value {
+		if err.T != nil {
+			return err
+		}
+		bufAppend(s, bp, concatStr(s.bytesOf(out.(Slice)), StrOf("\n")))
+		return Iface{}
+	}
+	if iv.T.String() == "encoding/json.RawMessage" {
+		return x.jsonRaw(s, iv.V, escape, finish)
+	}
+	if !isString(iv.T) {
+		unsupported("json.Encoder.Encode of dynamic type %s (only string and json.RawMessage data are encoded by the engine)", iv.T)
+	}
+	fn := x.W.jsonAppendString()
+	if fn == nil {
+		unsupported("encoding/json.appendString[string] not found in the SSA program")
+	}
+	arg := iv.V
+	return []Outcome{{Cond: smt.True, Val: nativeCall{&NativeDriver{Kind: "json.Encode", Data: fn, Resume: func(x *Exec, s *State, f *Frame) {
+		if !f.NatHasRet {
+			x.callValue(s, fn, []Value{Slice{}, arg, escape})
+			return
+		}
+		x.popFrame(s, finish(x, s, f.NatRet, Iface{}))
+	}}}}}
+}
+
+type poolData struct{ fn Value }
+
+// inPoolGet models (*sync.Pool).Get on an empty pool: the result of New (nil without New).
+func inPoolGet(x *Exec, s *State, a []Value, _ *ssa.Call) []Outcome {
+	p := a[0].(Ptr)
+	sv, ok := s.load(p).(*StructVal)
+	if !ok {
+		unsupported("sync.Pool with unexpected representation")
+	}
+	newFn := sv.F[len(sv.F)-1]
+	if _, isNil := newFn.(NilFunc); isNil {
+		return one(Iface{})
+	}
+	return []Outcome{{Cond: smt.True, Val: nativeCall{&NativeDriver{Kind: "Pool.Get", Data: &poolData{newFn}, Resume: func(x *Exec, s *State, f *Frame) {
+		if !f.NatHasRet {
+			x.callValue(s, f.Nat.Data.(*poolData).fn, nil)
+			return
+		}
+		x.popFrame(s, f.NatRet)
+	}}}}}
 }
